@@ -26,7 +26,8 @@ NA = {
 CHECKS = {}
 try:
     sys.path.insert(0, HERE)
-    from dsim.registry import MANIFEST_CHECKS as CHECKS  # filled in as checks come online
+    from dsim.registry import MANIFEST_CHECKS as _MC, TABLE as _T
+    CHECKS = {k: v for k, v in _MC.items() if k in _T}
 except Exception:
     CHECKS = {}
 
